@@ -2,13 +2,18 @@
 ID = 'C14'
 LEVEL = 'exploration'
 LEVEL_TEXT = ('exploration: every sequence of registry operations up to a length bound on a fresh Profiles() instance is run on the real code - quick: length <= 3 over 26 '
-              'operations on four toy profiles (addProfiles with every ordered pair of them) and over 18 operations on a macro shadower plus two case-twin profiles; thorough: '
-              'length <= 3 over 52 operations on all six toys (every ordered pair and three triples as addProfiles lists), length <= 4 over 18 operations on four toys, 64 random '
-              'walks of 200 operations; after each operation the verdict vector of a 38-pair battery (validate and validateWithProfile), knownNames, profiles and '
+              'operations on four toy profiles (addProfiles with every ordered pair of them), over 18 operations on a macro shadower plus two case-twin profiles and over 18 '
+              'operations on two second-level macro shadowers plus one toy; thorough: '
+              'length <= 3 over 52 operations on six toys (every ordered pair and three triples as addProfiles lists), length <= 4 over 18 operations on four toys, length <= 3 over '
+              '26 operations on the second-level shadowers plus two toys, 64 random '
+              'walks of 200 operations; after each operation the verdict vector of a 49-pair battery (validate and validateWithProfile), knownNames, profiles and '
               'propertiesByProfile() are compared with a hand-written model of the toy profiles, with a registry that got the same profiles registered directly, and with the '
-              'observation made earlier on the same path in the same state')
-LEVEL_NOTE = ('bounded: six toy profiles (new properties; redefinition of color and of another toy\'s property; a macro shadowing the general macro length; a macro shadowing '
-              'another profile\'s macro; two twins whose patterns differ only in the letter case of an escape class, d/D and w/W directly, s/S through a shared macro name), '
+              'observation made earlier on the same path in the same state; in addition every sequence of <= 3 additions / removals (quick: 4 toys, thorough: 6) is run on the '
+              'process-wide cssutils.profile in a forked process per history, once per subset of its intermediate points (quick: subsets of at most one point) at which the '
+              'consumers of the registry are asked: Property(name, value).valid and the declarations of a parsed sheet must agree with the hand model at every asked point')
+LEVEL_NOTE = ('bounded: eight toy profiles (new properties; redefinition of color and of another toy\'s property; a macro shadowing the general macro length; a macro shadowing '
+              'another profile\'s macro; two twins whose patterns differ only in the letter case of an escape class, d/D and w/W directly, s/S through a shared macro name; two '
+              'shadowing a macro that the built-in property patterns reach only through other macros: namedcolor via {color}, the token macro int via {integer}), '
               'histories of <= 3/4 operations, addProfiles lists of 2 (thorough: up to 3) profiles, a fixed battery; re-adding a registered name and defaults naming an '
               'unregistered profile are treated as precondition violations and not taken; the representation invariant itself is not proved')
 TECHNIQUE = 'bounded run-time contracts: exhaustive enumeration of operation histories with a state-function oracle (hand model + directly built reference registry + path revisits)'
@@ -18,3 +23,4 @@ DESIGN_REF = 'DESIGN.md section 3, C14'
 def bounded(ctx):
     from bounded import c14
     c14.histories(ctx)
+    c14.global_registry(ctx)
